@@ -538,6 +538,10 @@ ListingAlwaysGood ==
 \* the incrementally kept list, while it is trusted, is a listing
 SortedListGood == (~dirty /\ Idle) => IsListing(sortedL)
 
+\* nothing with an invalid script is pooled (trusted / own submissions are assumed valid, see Submit): in
+\* particular not through the retry of a transaction that waited for its parent
+PoolScriptsOK == \A t \in P : ScriptsOK(t)
+
 NoCrash == last.res # "crash"
 
 \* orphans wait for a parent they really have
@@ -606,14 +610,15 @@ O(u, e) == [amt |-> A(u, e)]
 T(ins, outs, vs) == [ins |-> ins, outs |-> outs, vsize |-> vs]
 MCIds == 201..206
 
-\* a chain 201-202-203 (the child pays more: CPFP), a double spend of 202 with its own child (204-206),
+\* a chain 201-202-203 (the child pays more: CPFP), a double spend of 201 that pays more than the whole chain
+\* (204, with its own child 206: accepting it removes descendants two levels deep),
 \* and 205: double spend of 201 that also spends an output of 201 (it spends what it replaces)
 FamChain == (201 :> T(<<I(1, 1)>>, <<O(29, 99990000), O(20, 0)>>, 150)) @@
             (202 :> T(<<I(201, 1)>>, <<O(29, 99980000)>>, 100)) @@
             (203 :> T(<<I(202, 1)>>, <<O(29, 99950000)>>, 100)) @@
-            (204 :> T(<<I(201, 1)>>, <<O(29, 99940000)>>, 120)) @@
+            (204 :> T(<<I(1, 1)>>, <<O(49, 99800000)>>, 120)) @@
             (205 :> T(<<I(1, 1), I(201, 2)>>, <<O(69, 99900000)>>, 200)) @@
-            (206 :> T(<<I(204, 1)>>, <<O(29, 99930000)>>, 100))
+            (206 :> T(<<I(204, 1)>>, <<O(49, 99790000)>>, 100))
 
 \* a diamond 201 -> {202, 203} -> 204, a double spend of one side (205), and 206 joining a confirmed
 \* output with one side of the diamond (conflicts with the join 204)
@@ -621,26 +626,28 @@ FamDiamond == (201 :> T(<<I(1, 1)>>, <<O(25, 0), O(24, 99990000)>>, 150)) @@
               (202 :> T(<<I(201, 1)>>, <<O(24, 99990000)>>, 100)) @@
               (203 :> T(<<I(201, 2)>>, <<O(24, 99970000)>>, 100)) @@
               (204 :> T(<<I(202, 1), I(203, 1)>>, <<O(49, 99900000)>>, 180)) @@
-              (205 :> T(<<I(201, 2)>>, <<O(24, 99940000)>>, 110)) @@
+              (205 :> T(<<I(201, 2)>>, <<O(24, 99840000)>>, 110)) @@
               (206 :> T(<<I(2, 1), I(202, 1)>>, <<O(74, 99890000)>>, 190))
 
 \* double spends whose contested output is not their first input: 203 (two inputs, cheaper than 201: refused by
 \* the real fee rule but kept in the reject cache) and 204 (three inputs, dearer) against 201 with its child 202;
-\* 205 child of 203; 206 single-input double spend of 203's first input.  Blocks that confirm 203 or 204 must
+\* 205 grandchild of 201 (204 pays more than 201, 202 and 205 together); 206 single-input double spend of 203's first input.  Blocks that confirm 203 or 204 must
 \* clear 201 and 202 from the pool whichever input carries the conflict.
 FamConfl == (201 :> T(<<I(1, 1)>>, <<O(25, 0), O(24, 99950000)>>, 150)) @@
             (202 :> T(<<I(201, 1)>>, <<O(24, 99980000)>>, 100)) @@
             (203 :> T(<<I(2, 1), I(1, 1)>>, <<O(99, 99990000)>>, 200)) @@
-            (204 :> T(<<I(3, 1), I(4, 1), I(1, 1)>>, <<O(149, 99900000)>>, 250)) @@
-            (205 :> T(<<I(203, 1)>>, <<O(99, 99970000)>>, 100)) @@
+            (204 :> T(<<I(3, 1), I(4, 1), I(1, 1)>>, <<O(149, 99800000)>>, 250)) @@
+            (205 :> T(<<I(202, 1)>>, <<O(24, 99960000)>>, 100)) @@
             (206 :> T(<<I(2, 1)>>, <<O(49, 99940000)>>, 100))
 
-\* an orphan chain 201-202-203 (any arrival order), a parent that never exists (204), a coinbase that matures
+\* an orphan chain 201-202-203-204 (any arrival order) whose third link carries a script that does not satisfy
+\* its parent's output (203: never pooled, from the network, whether it arrives before or after 202; 204 never
+\* pooled either), a coinbase that matures
 \* one block later (205), an output index the parent does not have (206, next to a confirmed input)
 FamOrphan == (201 :> T(<<I(1, 1)>>, <<O(49, 99990000)>>, 100)) @@
              (202 :> T(<<I(201, 1)>>, <<O(49, 99970000)>>, 100)) @@
-             (203 :> T(<<I(202, 1)>>, <<O(49, 99960000)>>, 100)) @@
-             (204 :> T(<<I(9001, 1), I(3, 1)>>, <<O(49, 99990000)>>, 150)) @@
+             (203 :> T(<<IBad(202, 1)>>, <<O(49, 99960000)>>, 100)) @@
+             (204 :> T(<<I(203, 1)>>, <<O(49, 99950000)>>, 100)) @@
              (205 :> T(<<I(22, 1)>>, <<O(49, 99988000)>>, 100)) @@
              (206 :> T(<<I(202, 2), I(3, 1)>>, <<O(49, 99900000)>>, 150))
 =============================================================================
